@@ -160,7 +160,12 @@ pub enum BadOp {
     ReorgMidBlock,
     MineMidBlock,
     BothEncodings,
+    /// both fields present, one of them undecodable
+    BothEncodingsHexBad,
+    BothEncodingsB64Bad,
     NeitherEncoding,
+    /// finalise an empty block under a hash that already belongs to an older block
+    FinaliseExistingHash,
     OddPkscript,
     NonHexPkscript,
     UndecodableTx,
@@ -184,6 +189,10 @@ pub enum Op {
     Reorg { back: i64 },
     Read(ReadOp),
     Bad(BadOp),
+    /// what an indexer does after a chain reorganisation: the transactions of the most recently orphaned
+    /// blocks are submitted again (same inscription ids, same payloads) in `n` new blocks, optionally with
+    /// another transaction of the first sender in front (so that nonce-derived addresses move)
+    Resubmit { n: u8, extra_first: bool },
 }
 
 #[derive(Clone, Debug, Serialize, Deserialize, PartialEq)]
@@ -205,6 +214,7 @@ impl Op {
             Op::Reorg { .. } => "reorg",
             Op::Read(_) => "read",
             Op::Bad(_) => "bad",
+            Op::Resubmit { .. } => "resubmit",
         }
     }
 }
